@@ -119,6 +119,14 @@ def step_fn(fn, attr, getname):
         elif (isinstance(s, ast.Assign) and len(s.targets) == 1 and isinstance(s.targets[0], ast.Attribute)
               and _attr_chain(s.targets[0]) == ["self", "optimizer", attr] and isinstance(s.value, ast.Name)):
             lets.append(f"let live := {s.value.id}_")
+        elif (isinstance(s, ast.Assign) and len(s.targets) == 1 and isinstance(s.targets[0], ast.Attribute)
+              and _attr_chain(s.targets[0]) == ["self", "optimizer", attr] and isinstance(s.value, ast.Call)
+              and isinstance(s.value.func, ast.Attribute) and _attr_chain(s.value.func) == ["self", getname] and not s.value.args):
+            lets.append("let live := get lastEpoch live")          # written without the intermediate local
+        elif (isinstance(s, ast.Assign) and len(s.targets) == 1 and isinstance(s.targets[0], ast.Attribute) and _attr_chain(s.targets[0]) == ["self", "last_epoch"]
+              and isinstance(s.value, ast.BinOp) and isinstance(s.value.op, ast.Add) and isinstance(s.value.left, ast.Attribute)
+              and _attr_chain(s.value.left) == ["self", "last_epoch"] and isinstance(s.value.right, ast.Constant)):
+            lets.append(f"let lastEpoch := lastEpoch + {int(s.value.right.value)}")   # `self.last_epoch = self.last_epoch + 1`
         else:
             raise Untranslatable("step statement: " + ast.dump(s)[:160])
     return lets
